@@ -1604,7 +1604,9 @@ class C02(PropBase):
             "every kind, build ids 0..64 bytes, regions 0..64 KiB anywhere in u64, list padding on/off; a directory with 2-4 entries of "
             "types the dump has, of named types without a reader (CommentStreamA, UnusedStream, Windows CE, LinuxCmdLine/Auxv ...) and of "
             "vendor / unknown types (0x4d7a0b0b, 0xffff.., Breakpad/Crashpad ranges), locations inside / outside the file; plus "
-            "MozSoftErrors, Mac boot args and Crashpad info streams written by the plugin) serialized by the extracted Coq encode_dump, once "
+            "MozSoftErrors, Mac boot args, Crashpad info and Mac crash info streams (0-20 records of one version, any storage order, unknown fields, "
+            "trailing bytes; not well-formed: mixed versions, version 0, short record_start_size, broken UTF-8, missing terminator, location "
+            "outside the file, wrong record count) written by the plugin) serialized by the extracted Coq encode_dump, once "
             "little- and once big-endian; the implementation and the extracted decoders read the same bytes; the oracle recomputes the "
             "expected reading from the model (and the directory from the bytes) in Python. "
             "Non-trivial = the dump carries at least three streams and at least one list with >= 2 items; distinct = distinct case lines")
@@ -1613,18 +1615,27 @@ class C02(PropBase):
         "translate/format_layouts.py: regex/bracket-matching translator from format.rs to coq/Gen/Layouts.v (aborts on unrecognised syntax); "
         "scroll's derive(Pread) assumed to read fields in declaration order without padding (exercised by the correspondence run); "
         "derive(FromPrimitive) assumed to accept exactly the declared enum values",
-        "hand-written model C02/Model.v (reader side mirrors minidump.rs; serializer side = the documented format), tied to the code by the "
+        "translate/c02_reader.py: regex/bracket-matching translator from minidump.rs to coq/Gen/C02Reader.v (STREAM_TYPE of every impl MinidumpStream, "
+        "UNIMPLEMENTED_STREAMS, stream_vendor limit/mask/arms, read_stream_list padding arms, the do_read! version table of the Mac crash info reader, "
+        "the statements of Minidump::read in order; the bodies of get_stream / get_raw_stream / location_slice / get_memory / all_streams / "
+        "unknown_streams / read_cstring_utf8 are compared with their expected text; aborts on anything else)",
+        "hand-written model C02/Model.v + C02/ModelR5.v (reader side mirrors minidump.rs; serializer side = the documented format), tied to the code by the "
         "correspondence run on identical bytes and by the synth cross-check; C08 range-table model for memory_at_address",
         "the plugin's own writer of the MozSoftErrors / boot args / Crashpad streams (checked byte for byte against the extracted Coq serializers "
-        "enc_bootargs / enc_crashpad on every case)",
+        "enc_bootargs / enc_crashpad on every case) and of the Mac crash info stream (no Coq serializer: its theorem is placement-agnostic; the bytes "
+        "are read by the extracted dec_maccrash and by the real reader, and judged by the oracle from the model)",
         "extraction: ExtrOcamlBasic only; ocaml/zconv.ml + ocaml/c02/main.ml; harness/src/bin/c02.rs",
     ]
-    assumptions = ["partial: handle object-information chains, Mac crash info, LinuxDsoDebug and the line syntax of Linux maps / limits are not modelled "
-                   "(LinuxCmdLine / LinuxAuxv / LinuxDsoDebug have no typed reader: they are covered as raw streams by the directory theorem)",
+    assumptions = ["partial: the line syntax of Linux maps / limits is not modelled (other properties own those parsers); LinuxCmdLine / LinuxAuxv / "
+                   "LinuxDsoDebug have no typed reader: they are covered as raw streams by the directory theorem and as entries of unimplemented_streams()",
+                   "Mac crash info: the theorem (c02_maccrash_any_placement) covers records of version >= 1 that share one version, wherever they are stored; "
+                   "records of version 0 (passed over), mixed versions, short record_start_size, bad strings are compared with the model and, where the format "
+                   "fixes the outcome, judged by the oracle",
+                   "the key/value syntax of cpuinfo/status/lsb-release/environ has a round-trip theorem for lines that need no trimming (c02_kv_roundtrip); "
+                   "trimming / quote stripping / lines without a separator are compared against the same Coq function on every case",
                    "MozSoftErrors, Mac boot args and Crashpad info have stream-level round-trip theorems (any offset, any surrounding file) composed with the "
                    "directory theorem (c02_stream_served); they are not fields of the 20-stream model of c02_dump_roundtrip",
-                   "Linux text streams are byte-exact raw streams in the theorem; the key/value syntax of cpuinfo/status/lsb-release/environ is compared "
-                   "against a Coq model of linux_list_iter in the correspondence run, maps/limits line syntax belongs to other properties",
+                   "Linux text streams are byte-exact raw streams in the 20-stream dump theorem; maps/limits line syntax belongs to other properties",
                    "lossy UTF-8 decoding of PDB file names and UTF-16 -> String conversion are exercised (Python re-derives them), not modelled in Coq; "
                    "UTF-8 validity (std::str::from_utf8) is modelled (valid_utf8) and compared on malformed strings"]
     manifest = {
@@ -1637,13 +1648,21 @@ class C02(PropBase):
                 "location), get_raw_stream is location_slice of it, all_streams()/unknown_streams() are exactly these entries, and the directory of a serialized "
                 "model reads back entry by entry; MozSoftErrors, Mac boot args and the Crashpad info stream (simple annotations, module list with list / simple / "
                 "object annotations) round-trip at any offset of any file and are served through any directory whose last entry of the type points at them; "
+                "Mac crash info: if the header's first record_count locations slice to well-formed records of one version (fixed u64 fields of the variant "
+                "the regenerated version table selects, unknown fields up to record_start_size, NUL-terminated UTF-8 strings, trailing bytes) - wherever "
+                "they lie in the file - the stream reads back as exactly these records, through any directory whose last entry of the type points at the header; "
+                "every u32 stream type is of exactly one kind (a typed reader serves it, no two readers claim one type / unimplemented_streams() lists it / "
+                "unknown), unimplemented_streams() = the served entries of the regenerated table, all_streams() = the union of the three kinds; the model's "
+                "stream_vendor and 0-or-4 list padding rule are proved equal to the expressions regenerated from minidump.rs, the statements of Minidump::read "
+                "are pinned in order; linux_list_iter reads `key<sep>value` lines back as exactly the pairs written; "
                 "every address of an isolated region reads back its byte (C08); CPU contexts of nine "
                 "architectures read back their registers iff context_flags match; debug/code identifiers are the documented functions of the CodeView record. "
-                "The model is tied to the code by reading the same serialized bytes with the real Minidump::read/get_stream/get_raw_stream/all_streams/unknown_streams "
+                "The model is tied to the code by reading the same serialized bytes with the real Minidump::read/get_stream/get_raw_stream/all_streams/unknown_streams/unimplemented_streams "
                 "and with the extracted decoders, by a cross-check against minidump-synth, and by an independent Python oracle.",
-        "note": "Trusted: Coq kernel; layout translator; hand-written reader model (correspondence-checked, not verified against the Rust source); "
-                "extraction + OCaml/Rust glue; the plugin's writer of three streams (cross-checked against the Coq serializers). Not modelled: handle "
-                "object-information chains, Mac crash info, Linux maps line syntax; Linux text content is correspondence-only.",
+        "note": "Trusted: Coq kernel; the two translators (layouts from format.rs, reader tables / expressions / statement order from minidump.rs); hand-written "
+                "reader model (correspondence-checked; the regenerated parts are proved equal to it); extraction + OCaml/Rust glue; the plugin's writer of "
+                "four streams (three cross-checked against the Coq serializers). Not modelled: Linux maps / limits line syntax; the data bytes behind an "
+                "object-information record.",
     }
 
     # ---- stage 1: models -> bytes through the extracted serializer
